@@ -21,7 +21,7 @@ func (Prop) ID() string { return "C19" }
 // Budget implements core.Property: simulated runs per batch.
 func (Prop) Budget(tier string) int {
 	if tier == "thorough" {
-		return 4000000
+		return 16000000
 	}
 	return 160000
 }
